@@ -251,6 +251,11 @@ func (d *interfaceDecoder) decodeStreamEmptyInterface(s *Stream, depth int64, p 
 						continue
 					}
 					return errors.ErrUnexpectedEndOfJSON("string", s.totalOffset())
+				case
+					0x01, 0x02, 0x03, 0x04, 0x05, 0x06, 0x07, 0x08, 0x09, 0x0A, 0x0B, 0x0C, 0x0D, 0x0E, 0x0F,
+					0x10, 0x11, 0x12, 0x13, 0x14, 0x15, 0x16, 0x17, 0x18, 0x19, 0x1A, 0x1B, 0x1C, 0x1D, 0x1E, 0x1F:
+					// control characters must be escaped (RFC 8259 section 7)
+					return errors.ErrInvalidCharacter(s.char(), "string literal", s.totalOffset())
 				}
 				s.cursor++
 			}
